@@ -28,6 +28,10 @@ CHECKS = {
     text="The real AttributesConverter runs symbolically on attribute objects of all 11 content kinds (text, extended text, image, video, audio, document, sticker, location, contact, sender-key distribution, revoke) whose set fields are unconstrained z3 strings (incl. empty), integers over the protobuf range (incl. 0), reals and opaque byte blobs of symbolic length, with quoted/mentioning context nested to depth 2 (thorough 3); optional-field families all/none/each single (thorough: pairs). protobuf messages are a stub generated from the real DESCRIPTORs; z3 proves every field the sender set comes back equal and that a parsed payload re-serialises to the same modelled fields. Every model is replayed through real protobuf bytes; the stub is compared with the real runtime on each run.",
     note="Trusted: proto2 stub (differentially validated), z3; protobuf's wire codec is only exercised concretely. Field subsets beyond the families rely on fields being mapped independently.",
     technique="symbolic execution of the hand-written field mapping with a descriptor-generated protobuf stub (z3 strings/ints/reals); concrete replay through real protobuf"),
+ "C11": dict(cat="model_checking", design="4/C11",
+    text="Per-sender event traces (acquire/release of every layer lock, cipher nonce reads/writes of the real dissononce CipherState, segment-queue put/get of the real consonance stream, socket writes) are extracted on every run from the real default stack in transport state; they are instantiated for 2 threads x 2 stanzas and 3 threads x 1 stanza (thorough 3 x 2; application via the top layer, keep-alive via the iq layer, second application thread) and encoded as a partial order over integer time stamps (program order, lock exclusion, FIFO queue, nonce semantics). z3 proves (unsat) that no interleaving puts a foreign write between a header and its payload, reorders frames against their nonces or reuses a nonce. A sat schedule is replayed with real threads gated at the traced points and a strict in-order peer decrypting the socket bytes.",
+    note="Trusted: thread switches only between traced events (GIL-level atomicity below them), data-independent control flow of a send (re-checked per run). Handshake thread and deadlock-freedom are outside.",
+    technique="trace extraction from the real code + SMT partial-order encoding of all interleavings (z3 LIA); gated-thread replay of counterexample schedules"),
  "C12": dict(cat="fault_enumeration", design="4/C12",
     text="The real default stack (all core, encryption and protocol layers + application layer) with recording non-blocking locks on every YowLayer.lock and the noise flush lock. The solver enumerates failure kind (unencodable value, >=16 MiB frame with symbolic length, no transport session, undecodable frame, handler-rejected stanza, raising application callback) x position in a sequence of 3 (thorough 4) operations x follow-up (send / incoming frame / both); after the failure: error reached the caller, no lock held, every later operation completes.",
     note="Trusted: Noise transport stub (transparent), manager stub; a lock found held stands for 'any later thread blocks forever' (OS-thread blocking itself is not executed).",
